@@ -44,7 +44,7 @@ DEFAULT_PROFILE = {
   "hide_field": 0.5,
   "retype_empty": 1,
   "replace_with_trigger": 3,
-  "column_cycle": 0.7, "summary_chain": 0.7, "resave_formula": 1.5, "rename_retype": 2.5,
+  "column_cycle": 0.7, "summary_chain": 0.7, "resave_formula": 1.5, "rename_retype": 2.5, "ref_reach_retype": 1, "show_group_field": 0.5,
   "remove_readd": 2,
   "add_empty_column": 2,
   "stale_undo": 1,
@@ -1193,6 +1193,66 @@ class Gen(object):
     return ([["ModifyColumn", t["tableId"], c["colId"], {"type": newt}],
              ["RenameColumn", t["tableId"], c["colId"], new]],)
 
+  def g_ref_reach_retype(self, w):
+    """A formula reaching a column THROUGH a reference ($r.x) on rows some of which hold the blank reference, then a
+    schema-level change of the reached column that alters what the blank reference yields (its type's default, its
+    removal, its re-creation).  First call(s) build the formula, later calls change the reached column."""
+    import re as _re
+    if not self.formulas:
+      return None
+    rng = self.rng
+    reach = []
+    for t in w.user_tables():
+      for c in w.formula_cols(t):
+        m = _re.match(r"^\$(\w+)\.(\w+)$", c["formula"] or "")
+        if not m:
+          continue
+        rc = [x for x in w.visible_cols(t) if x["colId"] == m.group(1) and x["type"].split(":")[0] in ("Ref", "RefList")]
+        if not rc:
+          continue
+        tgt = w.tables.get(rc[0]["type"].split(":", 1)[1])
+        if tgt:
+          xs = [x for x in w.data_cols(tgt) if x["colId"] == m.group(2) and not x["reverseCol"]]
+          if xs:
+            reach.append((t, rc[0], tgt, xs[0]))
+    if reach and rng.random() < 0.75:
+      t, r, tgt, x = rng.choice(reach)
+      other = {"Text": ["Numeric", "Int", "Bool"], "Numeric": ["Text", "Int"], "Int": ["Text", "Numeric"],
+               "Bool": ["Text", "Int"], "Choice": ["Numeric"], "Any": ["Numeric", "Text"]}.get(x["type"], ["Text", "Numeric"])
+      k = rng.random()
+      if k < 0.7:
+        return ["ModifyColumn", tgt["tableId"], x["colId"], {"type": rng.choice(other)}]
+      if k < 0.85:
+        return ["RemoveColumn", tgt["tableId"], x["colId"]]
+      return ["UpdateRecord", "_grist_Tables_column", x["ref"], {"type": rng.choice(other)}]
+    # build: a reference column with some blank references and a formula reading through it (self-sufficient: the
+    # reference column and blank-reference rows are created in the same bundle when the document has none)
+    ok = ("Text", "Numeric", "Int", "Bool", "Choice")
+    ts = [t for t in w.user_tables() if any(x["type"] in ok and not x["reverseCol"] for x in w.data_cols(t))]
+    if not ts:
+      return None
+    tgt = rng.choice(ts)
+    x = rng.choice([x for x in w.data_cols(tgt) if x["type"] in ok and not x["reverseCol"]])
+    refs = [(t, c) for t in w.user_tables() for c in w.data_cols(t) if c["type"] == "Ref:%s" % tgt["tableId"]]
+    out = []
+    if refs and rng.random() < 0.7:
+      t, r = rng.choice(refs)
+      rid = r["colId"]
+    else:
+      t = rng.choice(w.user_tables())
+      self.n_names += 1
+      rid = "rf%d" % self.n_names
+      out.append(["AddColumn", t["tableId"], rid, {"type": "Ref:%s" % tgt["tableId"], "isFormula": False}])
+    rows = list(t["rows"])
+    if rows and tgt["rows"]:
+      vals = [(rng.choice(tgt["rows"]) if i % 2 else 0) for i in range(len(rows))]
+      out.append(["BulkUpdateRecord", t["tableId"], rows, {rid: vals}])
+    if len(rows) < 3:
+      out.append(["BulkAddRecord", t["tableId"], [None, None], {}])        # rows holding the blank reference
+    out.append(["AddColumn", t["tableId"], self.new_name(), {"type": "Any", "isFormula": True,
+                                                             "formula": "$%s.%s" % (rid, x["colId"])}])
+    return (out,)
+
   def g_column_cycle(self, w):
     """Two formula columns that form a cycle at the COLUMN level but not at the cell level, through a reference to
     the next row: A = $B if $id == 1 else $x ; B = ($nxt.A + 1) if $nxt else 0.  Whichever column the update loop
@@ -1251,6 +1311,24 @@ class Gen(object):
     gb = [f for f in fs if w.cols_by_ref.get(f["colRef"], {}).get("summarySourceCol")]
     f = self.rng.choice(gb if gb and self.rng.random() < 0.7 else fs)
     return ["RemoveRecord", "_grist_Views_section_field", f["id"]]
+
+  def g_show_group_field(self, w):
+    """Make a summary table's normally hidden `group` column (or another helper-less column) visible in one of its
+    widgets: a view field whose column is `group`."""
+    secs, refs = self._summary_sections(w)
+    if not secs:
+      return self.g_summary(w)
+    s_ = self.rng.choice(secs)
+    st = refs[s_["tableRef"]]
+    g = [c for c in st["cols"] if c["colId"] == "group"]
+    if not g:
+      return None
+    if any(f.get("parentId") == s_["id"] and f.get("colRef") == g[0]["ref"] for f in w.fields):
+      return ["DetachSummaryViewSection", s_["id"]] if len(w.user_tables()) < 6 else None
+    add = ["AddRecord", "_grist_Views_section_field", None, {"parentId": s_["id"], "colRef": g[0]["ref"]}]
+    if self.rng.random() < 0.5 and len(w.user_tables()) < 6:
+      return ([add, ["DetachSummaryViewSection", s_["id"]]],)
+    return add
 
   def g_remove_summary_widget(self, w):
     secs, _refs = self._summary_sections(w)
